@@ -99,20 +99,20 @@ func pop(label string, width int) uint64 {
 	return in.Value
 }
 
-func U8(label string) uint8           { return uint8(pop(label, 8)) }
-func U16(label string) uint16         { return uint16(pop(label, 16)) }
-func U32(label string) uint32         { return uint32(pop(label, 32)) }
-func U64(label string) uint64         { return pop(label, 64) }
-func Int(label string) int            { return int(pop(label, 64)) }
-func Uintptr(label string) uintptr    { return uintptr(pop(label, 64)) }
-func Bool(label string) bool          { return pop(label, 8) == 1 }
+func U8(label string) uint8        { return uint8(pop(label, 8)) }
+func U16(label string) uint16      { return uint16(pop(label, 16)) }
+func U32(label string) uint32      { return uint32(pop(label, 32)) }
+func U64(label string) uint64      { return pop(label, 64) }
+func Int(label string) int         { return int(pop(label, 64)) }
+func Uintptr(label string) uintptr { return uintptr(pop(label, 64)) }
+func Bool(label string) bool       { return pop(label, 8) == 1 }
 func Choice(label string, n int) int {
 	if n <= 1 {
 		return 0
 	}
 	return int(pop(label, 8))
 }
-func Split(label string, x uint64, max int) uint64 { return x }
+func Split(label string, x uint64, max int) uint64    { return x }
 func Concretize(label string, x uint64, n int) uint64 { return x }
 
 func Bytes(label string, n int) []byte {
@@ -280,8 +280,8 @@ func Catch(f func()) (panicked bool) {
 	return false
 }
 
-func Reach(tag string)         {}
-func Known(id string, c bool)  {}
+func Reach(tag string)               {}
+func Known(id string, c bool)        {}
 func Observe(label string, v uint64) { fmt.Printf("VERIF-OBS %s=%#x\n", label, v) }
 
 func Tier() int {
@@ -299,4 +299,4 @@ func Param(name string, quick, thorough int) int {
 }
 
 func WatchLocked(p unsafe.Pointer, n uintptr, lock unsafe.Pointer) {}
-func Unwatch()                                           {}
+func Unwatch()                                                     {}
